@@ -673,7 +673,7 @@ pub fn check_case(c: &Case) -> Result<CaseInfo, Failure> {
 }
 
 pub fn run(ctx: &Ctx, started: Instant) -> i32 {
-    let per_shard = ctx.tier.pick(2_500u32, 50_000);
+    let per_shard = ctx.tier.pick(10_000u32, 100_000);
     let stats = par_shards(WORKERS, |shard| {
         let mut st = Stats::default();
         let role = [Role::V3Server, Role::V5Server, Role::V5Client, Role::V3Client][shard % 4];
